@@ -1,10 +1,15 @@
 /-
   C09 — parsing and serialising quotes are exact inverses on the v4 wire format.
-  Property theorems only (helper lemmas: TdxProofs/Lemmas/AbiRoundTrip.lean, AbiNoPanic.lean).
+  Property theorems only (helper lemmas: TdxProofs/Lemmas/AbiRoundTrip.lean, AbiNoPanic.lean, AbiLayout.lean,
+  AbiBack.lean; the independent specification of the layout — `WellFormed`, `V4Layout`, `FieldsAreSlices`,
+  `specParse` — is TdxModel/AbiSpec.lean).
 -/
 import TdxModel.Abi
+import TdxModel.AbiSpec
 import TdxProofs.Lemmas.AbiRoundTrip
 import TdxProofs.Lemmas.AbiNoPanic
+import TdxProofs.Lemmas.AbiLayout
+import TdxProofs.Lemmas.AbiBack
 
 namespace Tdx.Props.C09
 open Tdx Tdx.Abi Tdx.Gen
@@ -89,5 +94,129 @@ theorem unfixed_witness_signedData : signedDataToProto false [] = .panic := by d
 theorem unfixed_witness_certificationData : certificationDataToProto false [1, 2, 3] = .panic := by decide
 theorem unfixed_witness_authData : qeAuthDataToProto false [0xff, 0xff, 1, 2, 3] = .panic := by decide
 theorem unfixed_witness_pckChain : pckCertificateChainToProto false [5, 0] = .panic := by decide
+
+/-! ### serialise → parse: every well-formed quote message survives unchanged -/
+
+/-- Every well-formed quote message (`WellFormed`: all sub-messages present, `CheckQuoteV4` accepts, report data 64 bytes,
+    32-bit fields in range, the two nested size fields equal to the actual lengths) serialises, and parsing the bytes gives
+    back exactly that message (byte fields, numbers and `extraBytes` included). -/
+theorem parse_serialize (q : QuoteV4) (wf : WellFormed q) :
+    ∃ b, quoteToAbiBytes (some q) = .ok b ∧ quoteToProto b = .ok q := by
+  obtain ⟨hp, hc, hrd, ⟨r1, r2, r3, r4⟩, ⟨s1, s2⟩⟩ := wf
+  rw [allPresent_shape hp] at hc ⊢
+  exact ⟨_, quote_back hc hrd r1 r2 r3 r4 s1 s2⟩
+
+/-- a fully populated quote: distinct bytes in every field, 3 bytes of QE authentication data, a 5-byte certificate
+    chain, 2 extra bytes -/
+def sampleQuote : QuoteV4 :=
+  ⟨some ⟨4, 2, 0x81, List.replicate 2 1, List.replicate 2 2, List.replicate 16 3, List.replicate 20 4⟩,
+   some ⟨List.replicate 16 5, List.replicate 48 6, List.replicate 48 7, List.replicate 8 8, List.replicate 8 9,
+         List.replicate 8 10, List.replicate 48 11, List.replicate 48 12, List.replicate 48 13, List.replicate 48 14,
+         [List.replicate 48 15, List.replicate 48 16, List.replicate 48 17, List.replicate 48 18], List.replicate 64 19⟩,
+   598,
+   some ⟨List.replicate 64 20, List.replicate 64 21,
+     some ⟨6, 464,
+       some ⟨some ⟨List.replicate 16 22, 0x12345678, List.replicate 28 23, List.replicate 16 24, List.replicate 32 25,
+                   List.replicate 32 26, List.replicate 32 27, List.replicate 96 28, 0x0102, 0x0304, List.replicate 60 29,
+                   List.replicate 64 30⟩,
+             List.replicate 64 31,
+             some ⟨3, [32, 33, 34]⟩,
+             some ⟨5, 5, [35, 36, 37, 38, 39]⟩⟩⟩⟩,
+   [0xEE, 0xFF]⟩
+
+example : WellFormed sampleQuote := by decide +kernel
+
+/-- its wire form (1236 bytes) -/
+def sampleBytes : Bytes :=
+  match quoteToAbiBytes (some sampleQuote) with
+  | .ok b => b
+  | _ => []
+
+example : sampleBytes.length = 1236 ∧ quoteToProto sampleBytes = .ok sampleQuote := by decide +kernel
+
+/-- A message that serialises is re-parsed, if at all, into a message with the same wire form: the parser never
+    "repairs" or mis-reads what the serialiser wrote. -/
+theorem reparse_is_consistent (q q' : QuoteV4) (b : Bytes) (_hc : checkQuoteV4 (some q) = .ok ())
+    (_hb : quoteToAbiBytes (some q) = .ok b) (hp : quoteToProto b = .ok q') : quoteToAbiBytes (some q') = .ok b :=
+  serialize_parse b q' hp
+
+/-- Inconsistent sizes are rejected, never mis-parsed: a message that passes `CheckQuoteV4` and whose 32-bit fields are
+    in range, but whose nested size fields do not equal the actual lengths, serialises to bytes the parser refuses. -/
+theorem size_inconsistent_rejected (q : QuoteV4) (b : Bytes) (hc : checkQuoteV4 (some q) = .ok ()) (hr : InRange q)
+    (hs : ¬ SizeConsistent q) (hb : quoteToAbiBytes (some q) = .ok b) : ∃ e, quoteToProto b = .err e := by
+  cases h : quoteToProto b with
+  | ok q' => exact absurd (sizeConsistent_of_layout hc hr hb ((quoteToProto_ok_iff_abs q').mp h).1) hs
+  | err e => exact ⟨e, rfl⟩
+  | panic => exact absurd h (quoteToProto_np b)
+
+/-- `sampleQuote` with a signed-data size that is one too large -/
+def badSizeQuote : QuoteV4 := { sampleQuote with signedDataSize := 599 }
+
+example : checkQuoteV4 (some badSizeQuote) = .ok () ∧ InRange badSizeQuote ∧ ¬ SizeConsistent badSizeQuote ∧
+    (quoteToAbiBytes (some badSizeQuote)).isOk = true := by decide +kernel
+
+/-- For a message that passes `CheckQuoteV4`, has 64 bytes of report data and in-range 32-bit fields, surviving the round
+    trip is equivalent to the nested size fields being consistent. -/
+theorem roundtrip_iff_sizeConsistent (q : QuoteV4) (hc : checkQuoteV4 (some q) = .ok ())
+    (hrd : q.body.reportData.length = 64) (hr : InRange q) :
+    (∃ b, quoteToAbiBytes (some q) = .ok b ∧ quoteToProto b = .ok q) ↔ SizeConsistent q := by
+  constructor
+  · rintro ⟨b, hb, hp⟩
+    exact sizeConsistent_of_layout hc hr hb ((quoteToProto_ok_iff_abs q).mp hp).1
+  · intro hs
+    exact parse_serialize q ⟨allPresent_of_check hc, hc, hrd, hr, hs⟩
+
+/-! ### the parser accepts exactly the v4 layout -/
+
+/-- The parser accepts exactly the byte strings that follow the v4 layout (`V4Layout`, stated on the bytes alone:
+    version 4, key type 2, TEE type 0x81, certification data types 6 and 5, and every nested size field equal to the
+    number of bytes actually there). -/
+theorem parse_ok_iff_layout (b : Bytes) : (∃ q, quoteToProto b = .ok q) ↔ V4Layout b := by
+  constructor
+  · rintro ⟨q, h⟩; exact ((quoteToProto_ok_iff_abs q).mp h).1
+  · intro h; exact ⟨_, (quoteToProto_ok_iff_abs _).mpr ⟨h, rfl⟩⟩
+
+/-- …and everything else is rejected with an error (never a panic, never a partial result). -/
+theorem parse_err_iff_not_layout (b : Bytes) : (∃ e, quoteToProto b = .err e) ↔ ¬ V4Layout b := by
+  rw [← parse_ok_iff_layout]
+  cases h : quoteToProto b with
+  | ok q => simp
+  | err e => simp
+  | panic => exact absurd h (quoteToProto_np b)
+
+example : V4Layout sampleBytes := by decide +kernel
+example : ¬ V4Layout f1Witness := by decide +kernel
+example : ¬ V4Layout (sampleBytes.take 1233) := by decide +kernel
+
+/-! ### every field of the result is the corresponding slice of the input -/
+
+/-- Every field of an accepted quote is the corresponding absolute slice of the input (numeric fields little-endian);
+    all sub-messages are present. -/
+theorem fields_are_slices (b : Bytes) (q : QuoteV4) (h : quoteToProto b = .ok q) : FieldsAreSlices b q := by
+  obtain ⟨_, rfl⟩ := (quoteToProto_ok_iff_abs q).mp h
+  exact fieldsAreSlices_abs b
+
+/-- The complete input/output relation of the parser: it returns `q` exactly when the bytes follow the layout and `q` is
+    the record of slices. -/
+theorem parse_ok_iff (b : Bytes) (q : QuoteV4) : quoteToProto b = .ok q ↔ V4Layout b ∧ FieldsAreSlices b q := by
+  rw [quoteToProto_ok_iff_abs]
+  constructor
+  · rintro ⟨h, rfl⟩; exact ⟨h, fieldsAreSlices_abs b⟩
+  · rintro ⟨h, hf⟩; exact ⟨h, eq_abs_of_fieldsAreSlices hf⟩
+
+example : FieldsAreSlices sampleBytes sampleQuote := fields_are_slices _ _ (by decide +kernel)
+
+/-- The parser agrees, on every input, with the independent cursor-based reference parser `specParse`
+    (TdxModel/AbiSpec.lean: `(name, size)` tables, offsets by prefix sums): same accepted inputs, same result. -/
+theorem parse_eq_spec (b : Bytes) : (quoteToProto b).toOption = specParse b :=
+  quoteToProto_toOption b
+
+/-- the tables of the reference parser have the record sizes of the Intel layout -/
+theorem spec_tables_sizes :
+    (headerTable.map (·.2)).sum = 48 ∧ (tdBodyTable.map (·.2)).sum = 584 ∧ (qeReportTable.map (·.2)).sum = 384 ∧
+    headerTable.length = 7 ∧ tdBodyTable.length = 15 ∧ qeReportTable.length = 12 := by
+  decide
+
+example : specParse sampleBytes = some sampleQuote := by decide +kernel
 
 end Tdx.Props.C09
